@@ -35,13 +35,14 @@ def harness_src(g, pkg, props, unconstrained=False, entry="", file_name=""):
     s = []
     s.append("package %s\n" % pkg)
     if "C18" in props:
-        s.append('import (\n\t"fmt"\n\t"sort"\n\t"sync"\n\t"sync/atomic"\n\n\t"vh/ref"\n)\n')
+        s.append('import (\n\t"fmt"\n\t"io"\n\t"sort"\n\t"sync"\n\t"sync/atomic"\n\n\t"vh/ref"\n)\n')
     else:
-        s.append('import "vh/ref"\n')
+        s.append('import (\n\t"io"\n\n\t"vh/ref"\n)\n')
     s.append("const symAlphabet = %s\n" % go_bytes_str(alpha))
     s.append("const symFile = %s\n" % gspec.go_quote(file_name))
     s.append("const symEntry = %s\n" % gspec.go_quote(entry))
     s.append("const symFaultSlots = %d\n" % int(g.get("fault_slots", 0)))
+    s.append("const symFaultInvocations = %d\n" % int(g.get("fault_invocations", 2)))
     s.append('''
 type outcome struct {
 	v        any
@@ -83,10 +84,55 @@ func runReal(in []byte, opts ...Option) (o outcome) {
 				o.pval = p
 			}
 		}()
-		o.v, o.err = Parse(symFile, in, opts...)
+		if symViaReader {
+			o.v, o.err = ParseReader(symFile, &symReader{data: in}, opts...)
+		} else {
+			o.v, o.err = Parse(symFile, in, opts...)
+		}
 	}()
 	o.tr = tr
 	return
+}
+
+var symEOF = io.EOF
+
+// symDeepCopy copies the slices of a value returned by Parse.
+func symDeepCopy(v any) any {
+	switch x := v.(type) {
+	case []byte:
+		if x == nil {
+			return x
+		}
+		return append([]byte{}, x...)
+	case []any:
+		if x == nil {
+			return x
+		}
+		out := make([]any, len(x))
+		for i := range x {
+			out[i] = symDeepCopy(x[i])
+		}
+		return out
+	}
+	return v
+}
+
+// symViaReader: the calls of a harness go through ParseReader (the documented
+// entry point that reads everything and delegates to Parse) instead of Parse.
+var symViaReader bool
+
+type symReader struct {
+	data []byte
+	off  int
+}
+
+func (r *symReader) Read(p []byte) (int, error) {
+	if r.off >= len(r.data) {
+		return 0, symEOF
+	}
+	n := copy(p, r.data[r.off:])
+	r.off += n
+	return n, nil
 }
 
 func refConfig() ref.Config {
@@ -368,6 +414,40 @@ func Harness_C16(n int) {
        else "symAssume(symOr(budget <= %d, budget >= 1<<31))" % int(g.get("budget_max", 24)),
        "true" if not g.get("nonterminating") else "false"))
         s.append("const symLeftRecC16 = %s\n" % ("true" if g.get("needs_lr") else "false"))
+        s.append('''
+// C16 with a Statistics collector that has been used before (its counter does
+// not start at zero): the budget still bounds the parse - at most budget
+// expressions are evaluated by this call - and an unexhausted budget still
+// gives the unbounded result.
+func Harness_C16reuse(n int) {
+	in := symInput(n, true)
+	budget := symU64("budget")
+	pre := symU64("pre")
+	symAssume(budget >= 1)
+	symAssume(budget <= %d)
+	symAssume(pre <= 40)
+	memo := symBool("memoize")
+	var st Stats
+	st.ExprCnt = pre
+	var o outcome
+	if symBool("stats_first") {
+		o = runReal(in, Statistics(&st, "no match"), MaxExpressions(budget), Memoize(memo))
+	} else {
+		o = runReal(in, MaxExpressions(budget), Memoize(memo), Statistics(&st, "no match"))
+	}
+	symNote(outcomeNote(o))
+	symAssert(!o.panicked, "C16: the budget panic escaped Parse")
+	symAssert(st.ExprCnt >= pre, "C16: the expression counter went backwards")
+	done := st.ExprCnt - pre
+	symAssert(symOr(done == 0, done-1 <= budget), "C16: more expressions were evaluated than the budget allows (Statistics collector used before)")
+	if %s && !hasMaxErr(o.err) {
+		o0 := runReal(in, Memoize(memo))
+		symAssert(symEqual(o.v, o0.v), "C16: value differs from the unbounded parse")
+		symAssert(sameStrings(errStrings(o.err), errStrings(o0.err)), "C16: errors differ from the unbounded parse")
+	}
+	symReach("end")
+}
+''' % (int(g.get("budget_max", 12)) if g.get("nonterminating") else min(16, int(g.get("budget_max", 24))), "true" if not g.get("nonterminating") else "false"))
     if "C08" in props:
         s.append('''
 // C08: left-recursive rules parse as the left-associative iteration they denote.
@@ -411,6 +491,7 @@ func Harness_C04init(n int) {
 func Harness_C18(n int) {
 	inA := symInputNamed("a", n, true)
 	inB := symInputNamed("b", n, true)
+	%s
 	symMonitor("ownership")
 	alone := runReal(inB%s)
 	other := runReal(inA%s)
@@ -422,7 +503,10 @@ func Harness_C18(n int) {
 	symAssert(symEqual(alone.tr, again.tr), "C18: the code blocks of a Parse saw different contexts after an earlier Parse")
 	symReach("end")
 }
-''' % ((("", "", "") if g.get("_optimized") else (", Memoize(symBool(\"m1\"))", ", Memoize(symBool(\"m2\"))", ", Memoize(symBool(\"m1\"))"))))
+''' % ((("", "", "", "") if g.get("_optimized") else (
+    # option values are built once and handed to every call that wants the same setting (a caller keeping its options in a variable)
+    "m1, m2 := symBool(\"m1\"), symBool(\"m2\")\n\to1 := Memoize(m1)\n\to2 := o1\n\tif m2 != m1 {\n\t\to2 = Memoize(m2)\n\t}",
+    ", o1", ", o2", ", o1"))))
     if "C18" in props:
         s.append('''
 // C18 (order independence): what Parse(b) returns after another call equals
@@ -489,6 +573,29 @@ func Harness_C18order(n int) {
        ("var stA, st1, st2 Stats", ", Statistics(&stA, \"no match\")", ", Statistics(&st1, \"no match\")", ", Statistics(&st2, \"no match\")", "&st1", "&st2",
         "symAssert(st1.ExprCnt == st2.ExprCnt && symEqual(st1.ChoiceAltCnt, st2.ChoiceAltCnt), \"C18: the statistics of a Parse differ from what the call reports in a process of its own\")")))
         s.append('''
+// C18 (through ParseReader): the same three calls entered through ParseReader;
+// the value of the first call is compared after the other two have run, so a
+// buffer shared between calls shows in it.
+func Harness_C18reader(n int) {
+	inA := symInputNamed("a", n, true)
+	inB := symInputNamed("b", n, true)
+	symViaReader = true
+	symMonitor("ownership-lifo")
+	alone := runReal(inB)
+	snap := symDeepCopy(alone.v)
+	other := runReal(inA)
+	symAssert(symEqual(alone.v, snap), "C18: the value a ParseReader call has returned is changed by a later call")
+	again := runReal(inB)
+	symNote(outcomeNote(alone) + "/" + outcomeNote(other))
+	symAssert(!alone.panicked && !other.panicked && !again.panicked, "C18: ParseReader panicked")
+	symAssert(symEqual(alone.v, again.v), "C18: the value of a ParseReader call depends on (or is changed by) another call in the same process")
+	symAssert(sameStrings(errStrings(alone.err), errStrings(again.err)), "C18: the errors of a ParseReader call depend on another call")
+	symAssert(symEqual(alone.tr, again.tr), "C18: the code blocks of a ParseReader call saw different contexts after another call")
+	symMonitor("off")
+	symViaReader = false
+	symReach("end")
+}
+
 // C18 (aborted calls): the middle call is cut short by an expression budget at
 // an arbitrary point (a recovered panic in the middle of rules, labels and
 // recovery operators); whatever it leaves behind must not reach the next call.
@@ -551,6 +658,11 @@ func Harness_C07b(n int) {
 	symMonitor("reentry")
 	o := runReal(in)
 	symNote(outcomeNote(o))
+	if symMonitorEvents() == 0 {
+		// the monitor matched no rule entry at all (the runtime's entry point has another name): not a pass
+		symNote("monitor blind")
+		return
+	}
 	symReach("end")
 }
 ''')
@@ -561,7 +673,7 @@ func Harness_C11(n int) {
 	in := symInput(n, true)
 	cfg := refConfig()
 	for k := 0; k < symFaultSlots; k++ {
-		for j := 0; j < 2; j++ {
+		for j := 0; j < symFaultInvocations; j++ {
 			f := symInt("fault_"+string(rune('0'+k))+"_"+string(rune('0'+j)), 0, 3)
 			faultPlan[k][j] = f
 			cfg.Faults[k][j] = f
